@@ -23,7 +23,7 @@ for e in kf:
     if e["kind"] == "finding":
         out.append(f"| {e['property']} | {e['what'].replace('|', chr(92) + '|')} |")
 out.append("\n## 9. Seeded changes (`/verif/seeded/`)\n")
-out.append("Written by independent sub-agents that saw only the property text and a scratch worktree of `/repo` (nothing from `/verif`), in seven rounds (two changes per property in rounds 1-5; 160 in all; the sixth round for ten properties only, the seventh - one change each for C03, C08, C09, C10, C14, C15: five detected on first run, C03-m11 and C09-m11 also by a failing T1 obligation; C15-m9 (op-free routine before a routine with jumps) was missed and led to new directed programs -; the later rounds were asked for rarely looked-at code sites, boundary values, cooperating code sites, error paths). About a third of them were missed by the check as it was when they arrived (11 of 34 in round 3, 8 of 34 in round 4, 5 of 34 in round 5, 8 of 18 in round 6, which was asked for inputs that small generators rarely build; one of those - a removed recursion limit, C13-m10 - is still not detected and is recorded as a known gap); every miss led to a stronger check (last column), none to a weaker one. Each change was confirmed in a scratch worktree (demo exits 0 before; patch applies; the 111 tests pass with it; demo exits 1 with it) and then run against the checks. `first run` = verdict of the check as it was when the change arrived; where that was a miss, the check was strengthened (what was added is in the last column) and re-run.\n")
+out.append("Written by independent sub-agents that saw only the property text and a scratch worktree of `/repo` (nothing from `/verif`), in seven rounds (two changes per property in rounds 1-5; 162 in all; the sixth round for ten properties only, the seventh - one change each for C03, C04, C07, C08, C09, C10, C14, C15: seven detected on first run, C03-m11 and C09-m11 also by a failing T1 obligation; C15-m9 (op-free routine before a routine with jumps) was missed and led to new directed programs -; the later rounds were asked for rarely looked-at code sites, boundary values, cooperating code sites, error paths). About a third of them were missed by the check as it was when they arrived (11 of 34 in round 3, 8 of 34 in round 4, 5 of 34 in round 5, 8 of 18 in round 6, which was asked for inputs that small generators rarely build; one of those - a removed recursion limit, C13-m10 - is still not detected and is recorded as a known gap); every miss led to a stronger check (last column), none to a weaker one. Each change was confirmed in a scratch worktree (demo exits 0 before; patch applies; the 111 tests pass with it; demo exits 1 with it) and then run against the checks. `first run` = verdict of the check as it was when the change arrived; where that was a miss, the check was strengthened (what was added is in the last column) and re-run.\n")
 out.append("| id | what it breaks / needs | caught by | notes |\n|---|---|---|---|")
 for f in sorted(glob.glob(os.path.join(ROOT, "seeded", "*", "meta.json"))):
     m = json.load(open(f))
